@@ -289,20 +289,30 @@ class VLoop(asyncio.BaseEventLoop):
     def _check_thread(self):
         pass
 
-    def actor_body(self):
+    def run_forever(self):
+        """The real SchedulerCentral.run() calls this from the actor that stands for the scheduler thread.  Like BaseEventLoop:
+        the callbacks that are ready are run as one batch, and a stop() is honoured at the end of a batch; stop() called from
+        another thread sets the flag but does not wake the loop up (it is not thread-safe) - the loop sleeps until a callback
+        arrives (call_soon_threadsafe)."""
+        self._check_closed()
         while True:
-            HUB.block_on(lambda: len(self._ready) > 0 or getattr(self, "_vstopped", False))
+            HUB.block_on(lambda: len(self._ready) > 0)
+            for _ in range(len(self._ready)):
+                if not self._ready:
+                    break
+                h = self._ready.popleft()
+                if not h._cancelled:
+                    events._set_running_loop(self)
+                    try:
+                        h._run()
+                    finally:
+                        events._set_running_loop(None)
+                HUB.yield_point()
             if getattr(self, "_vstopped", False):
-                # loop.stop(): run_forever returns, whatever is still pending never runs
+                self._vstopped = False
                 return
-            h = self._ready.popleft()
-            if not h._cancelled:
-                events._set_running_loop(self)
-                try:
-                    h._run()
-                finally:
-                    events._set_running_loop(None)
-            HUB.yield_point()
+
+    actor_body = run_forever
 
 
 class VThread:
@@ -367,9 +377,32 @@ class VLock:
         return self.owner is not None
 
 
+class VEvent:
+    """threading.Event replacement."""
+
+    def __init__(self):
+        self._flag = False
+
+    def set(self):
+        self._flag = True
+
+    def clear(self):
+        self._flag = False
+
+    def is_set(self):
+        return self._flag
+
+    def wait(self, timeout=None):
+        if _dead():
+            return True
+        HUB.block_on(lambda: self._flag)
+        return True
+
+
 class ThreadingShim:
     Lock = VLock
     Thread = VThread
+    Event = VEvent
 
     def __getattr__(self, k):
         import threading
